@@ -42,6 +42,10 @@ def funcs(maxlen):
     fs.append(A.Func("s_out_then_char", A.VoidRes(), [(Over(A.CStrOut(), [5, 6, 9]), "d"), (A.CharVal(), "c")]))
     fs.append(A.Func("s_strout_then_in", A.VoidRes(), [(Over(A.StrOut("out"), [0, 4, 5, 6]), "d"), (Over(A.CStrIn(), short), "s")]))
     fs.append(A.Func("s_inout_then_in", A.VoidRes(), [(Over(A.CStrInout(), [t for t in nonempty if len(t) <= 2]), "d"), (Over(A.CStrIn(), short), "s")]))
+    # a NULL char * result: zero length as an allocatable value, all blanks in a fixed-length one
+    fs.append(A.Func("s_res_null", A.CStrRes(None), []))
+    fs.append(A.Func("s_res_null_len", A.CStrRes(None, 6), []))
+    fs.append(A.Func("s_res_null_arg", A.CStrRes(None), [(A.Val(A.NATIVE["int"]), "n")]))
     # string results of functions that also take arguments (the result's attributes, not the last argument's, decide its shape)
     T = A.NATIVE
     for rname, res in (("clen", A.CStrRes("hey you", 10)), ("slen", A.StrRes("val", "hey you", 10)), ("rlen", A.StrRes("cref", "hey you", 4)),
